@@ -170,6 +170,10 @@ def write_description(desc, path, fmt):
     import yaml
     import zlib
     form = zlib.crc32(json.dumps(desc, sort_keys=True, default=str).encode()) % 8      # a function of the description: a replay meets the same form
+    if fmt == "yaml" and any(c in json.dumps(desc, ensure_ascii=False, default=str) for c in "\x85\u2028\u2029"):
+        # PyYAML's own writer does not round-trip NEL / LS / PS when it writes them literally (it folds them like line breaks): a harness matter,
+        # not the tool's - such text goes out escaped (double-quoted "\N", "\L", "\P")
+        form = 1 if form % 2 == 0 else 7
     if fmt == "json":
         text = [lambda: json.dumps(desc), lambda: json.dumps(desc, indent=4), lambda: json.dumps(desc, ensure_ascii=False), lambda: json.dumps(desc, indent="\t"),
                 lambda: json.dumps(desc, indent=2).replace("\n", "\r\n"), lambda: json.dumps(desc, separators=(",", ":")), lambda: json.dumps(desc) + "\n",
